@@ -2379,3 +2379,6 @@ mod test {
         }
     }
 }
+
+#[cfg(feature = "verif-hooks")]
+mod verif_hooks;
